@@ -10,7 +10,12 @@ REPO = os.environ.get("LENA_REPO", "/repo")
 
 
 class LoopSpec(object):
-    def __init__(self, invariant=(), decreases=None, havoc=None, keep=None, ghost=None, init_ghost=None, body_ghost=None):
+    def __init__(self, invariant=(), decreases=None, havoc=None, keep=None, ghost=None, init_ghost=None, body_ghost=None,
+                 cursor=None):
+        # cursor: local name -> (root, keys, lo, hi): at the loop head the name refers to the OBJECT reached from the
+        # dictionary `root` by the keys keys[lo..hi) (keys: a list of keys, or one key repeated); checked at loop entry
+        # and at every back edge against the reference the body actually computed (dicts.same_ref)
+        self.cursor = dict(cursor or {})
         self.init_ghost = dict(init_ghost or {})     # ghost name -> spec expression, evaluated once before the loop
         self.body_ghost = dict(body_ghost or {})     # ghost name -> spec expression, evaluated at the start of each iteration
         self.invariant = list(invariant)
@@ -43,7 +48,7 @@ class Contract(object):
                  ghost=None, notes="", trusted=False, unfold=None, assume_post=(), raises_frame="havoc",
                  exc_ensures=None, self_class=None, kwargs=None, defaults=None, statics=None, max_paths=4000,
                  old_names=None, qualkey=None, result_alias=None, on_abandon=(), upstream_raises=False, at_call=None, closure=None,
-                 vararg=None, kwarg=None, local_types=None):
+                 vararg=None, kwarg=None, local_types=None, post_class=None, result_ref=None, out_def=None):
         self.file, self.qual, self.props = file, qual, list(props)
         self.params = dict(params or {})
         self.result = result
@@ -82,7 +87,16 @@ class Contract(object):
         # element type of a local that starts as an empty list display `name = []` and is extended in a loop of symbolic
         # length: name -> "Lst[T]" (an empty list is an empty list whatever T; a value that does not fit T is out-of-subset)
         self.local_types = dict(local_types or {})
+        # ClassSpec name describing `self` AFTER the call when a field changes its type (e.g. None -> number): the types of
+        # the havocked `self.` fields are taken from it and the object is an instance of it afterwards
+        self.post_class = post_class
+        # generator whose output is a stated function of its arguments: (len_expr, index_var, item_expr); must be backed by
+        # the two ensures clauses `len(out) == len_expr` and `all(out[k] == item_expr for k in range(len(out)))`
+        self.out_def = out_def
         self.vararg, self.kwarg = vararg, kwarg   # names of the *args / **kwargs parameters (typed Tuple[...] / KwDict[k:T,...])
+        # result_ref = (param, keys, lo, hi): the function returns the very OBJECT reached from the dictionary `param` by
+        # the keys keys[lo..hi) (checked at every normal exit; gives callers a reference they can store through)
+        self.result_ref = result_ref
 
     @property
     def key(self):
@@ -158,6 +172,12 @@ class ContractIndex(object):
             seen.add(k)
             cs = self.classes.get(k)
             real = cs.alias_of if cs is not None and cs.alias_of else k
+            if cs is not None and cs.alias_of:
+                # a contract written for this very view of the class (ClassSpec name != real class name): same function,
+                # typed / specified for objects that satisfy the view's invariant;  qualkey = "<ClassSpec name>.<method>"
+                for c in self.by_simple.get(name, []):
+                    if c.qual == "%s.%s" % (real, name) and c.qualkey == "%s.%s" % (k, name):
+                        return c
             for c in self.by_simple.get(name, []):
                 if c.qual == "%s.%s" % (real, name) and not c.qualkey:
                     return c
@@ -231,6 +251,11 @@ class ModuleCtx(object):
                     self.names[n.targets[0].id] = ("sentinel", n.targets[0].id)
                 elif isinstance(v, ast.Constant):
                     self.names[n.targets[0].id] = ("const", v.value)
+                elif isinstance(v, ast.Call) and isinstance(v.func, ast.Name) and v.func.id == "namedtuple" and len(v.args) == 2 \
+                        and not v.keywords and all(isinstance(a, ast.Constant) and isinstance(a.value, str) for a in v.args) \
+                        and self.names.get("namedtuple") == ("from", "collections", "namedtuple"):
+                    # X = namedtuple("X", "a,b,c"): a tuple class with named positions
+                    self.names[n.targets[0].id] = ("namedtuple", v.args[0].value, v.args[1].value.replace(",", " ").split())
             elif isinstance(n, (ast.If, ast.Try)):
                 # conditional imports (python 2/3 compatibility): python 3 branch
                 for sub in ast.iter_child_nodes(n):
@@ -258,6 +283,8 @@ class ModuleCtx(object):
             return Sentinel(self.modname + "." + name)
         if kind == "const":
             return interp.const_sv(ent[1]) if not isinstance(ent[1], float) else None
+        if kind == "namedtuple":
+            return Fun("namedtuple", name=ent[1], fields=list(ent[2]))
         return None
 
 
